@@ -585,6 +585,38 @@ class Inliner:
             new_body = body
         else:
             tgt = target or ('_ret' + suffix)
+            # a helper that ends in a loop and leaves it with a bare `return` (nothing follows the loop): that return is `break`
+            last_ = body[-1] if body else None
+            if isinstance(last_, (ast.For, ast.While)) and not last_.orelse and \
+                    not any(isinstance(n, ast.Return) for st_ in body[:-1] for n in ast.walk(st_)) and \
+                    any(isinstance(n, ast.Return) for n in ast.walk(last_)):
+                ok_ = [True]
+
+                def walk_(n, depth_loops):
+                    for c_ in ast.iter_child_nodes(n):
+                        if isinstance(c_, (ast.FunctionDef, ast.AsyncFunctionDef, ast.Lambda)):
+                            continue
+                        if isinstance(c_, ast.Return):
+                            if c_.value is not None or depth_loops > 0:
+                                ok_[0] = False
+                        elif isinstance(c_, (ast.While, ast.For)):
+                            walk_(c_, depth_loops + 1)
+                        elif isinstance(c_, ast.Try) and c_.finalbody:
+                            ok_[0] = ok_[0] and not any(isinstance(x, ast.Return) for x in ast.walk(c_))
+                        else:
+                            walk_(c_, depth_loops)
+                walk_(last_, 0)
+                if ok_[0]:
+                    class _R2Bn(ast.NodeTransformer):
+                        def visit_FunctionDef(self, n):
+                            return n
+
+                        def visit_Lambda(self, n):
+                            return n
+
+                        def visit_Return(self, n):
+                            return ast.copy_location(ast.Break(), n)
+                    body[-1] = _R2Bn().visit(last_)
             new_body = _tailify(body, '__RET__')
             if new_body is None:
                 return None
